@@ -237,11 +237,11 @@ Proof.
   intros asg F olds news HF Hct Hnd Ha. unfold dict_result.
   destruct (dplace_nofix_shape asg F (dinserts olds news [] 0) news olds 0 HF) as [S1 S2].
   set (res := dplace asg F (dinserts olds news [] 0) news 0 olds) in *.
-  cbn [eval_r eval]. fold (ev_kr ct). fold ev_kt'.
+  cbn [eval_r eval]. change (fun kr : Z * nres => match kr with (k, r') => (k, eval_r ct r') end) with (ev_kr ct). fold ev_kt'.
   rewrite mkdict_nodup by (rewrite ev_kr_keys, S1; exact Hnd). rewrite mkdict_nodup by (rewrite ev_kt'_keys; exact Hnd).
   rewrite val_eqb_dict, !map_length. apply andb_true_iff. split.
   - apply Nat.eqb_eq. rewrite <- (map_length fst res), S1, map_length. reflexivity.
-  - apply dsub_intro. intros k w Hin. apply in_map_iff in Hin. destruct Hin as [[k0 r] [E Hin]]. cbn [ev_kr] in E. injection E as <- <-.
+  - apply dsub_intro. intros k w Hin. apply in_map_iff in Hin. destruct Hin as [[k0 r] [E Hin]]. unfold ev_kr, ev_kr_gen in E. injection E as <- <-.
     destruct (S2 k0 r Hin) as [o [Ho Hr]]. exists (eval ct o). split.
     + apply alookup_nodup; [rewrite ev_kt'_keys; exact Hnd|]. apply in_map_iff. exists (k0, o). split; [reflexivity|exact Ho].
     + destruct Hr as [->|[v [Hv ->]]]; [cbn [eval_r]; apply eval_refl; exact Hct|exact (Ha k0 o v Ho Hv)].
@@ -261,11 +261,11 @@ Lemma cplace_nofix_pos : forall asg F c ins fs pos kws i, f_fix F = false ->
   posvals ct (cplace ct asg F c ins fs i (elements pos kws)) = map (eval ct) pos.
 Proof.
   intros asg F c ins fs pos kws. unfold elements. induction pos as [|t r IH]; intros i HF; cbn [map app].
-  - apply posvals_nil. intros x Hx. destruct (cplace_nofix_shape asg F c ins fs (map inr kws) i HF x Hx) as [e [He Hxe]].
+  - apply (posvals_nil (eval_r ct)). intros x Hx. destruct (cplace_nofix_shape asg F c ins fs (map inr kws) i HF x Hx) as [e [He Hxe]].
     apply in_map_iff in He. destruct He as [[k t] [<- _]]. cbn [cassign_el] in Hxe. unfold cassign_kw in Hxe.
     destruct (alookup k fs) as [v|]; [destruct (is_default ct c k v); [destruct (is_unm t); [|destruct (val_eqb (eval ct t) v); [destruct (f_update F)|destruct (f_fix F)]]|]|destruct (f_fix F)];
       cbn in Hxe; try tauto; destruct Hxe as [<-|[]]; discriminate.
-  - cbn [cplace]. rewrite HF. cbn [app cassign_el]. unfold cassign_pos. rewrite HF. cbn [app]. unfold posvals. cbn [flat_map app eval_r]. f_equal. apply IH. exact HF.
+  - cbn [cplace]. rewrite HF. cbn [app cassign_el]. unfold cassign_pos. rewrite HF. cbn [app]. unfold posvals, posvals_gen. cbn [flat_map app]. f_equal. apply IH. exact HF.
 Qed.
 
 Lemma call_nofix_eq : forall asg F c pos kws fs, f_fix F = false -> ct_wf -> ct_ok ct -> NoDup (map fst kws) -> okv_entries ct fs = true ->
@@ -275,12 +275,13 @@ Lemma call_nofix_eq : forall asg F c pos kws fs, f_fix F = false -> ct_wf -> ct_
 Proof.
   intros asg F c pos kws fs HF Hct Hok Hnk Hfs Hnf Ha. unfold call_result.
   set (res := cplace ct asg F c (cinserts ct c (length pos) kws fs [] (length pos)) fs 0 (elements pos kws)).
-  cbn [eval_r eval]. fold (posvals ct res). fold (kwvals ct res). fold ev_kt'.
+  cbn [eval_r eval]. change (flat_map (fun ar : option Z * nres => match ar with (None, r') => [eval_r ct r'] | (Some _, _) => [] end) res) with (posvals ct res).
+  change (flat_map (fun ar : option Z * nres => match ar with (Some k, r') => [(k, eval_r ct r')] | (None, _) => [] end) res) with (kwvals ct res). fold ev_kt'.
   unfold res at 1. rewrite cplace_nofix_pos by exact HF. fold res.
   rewrite val_eqb_obj, Z.eqb_refl. cbn [andb].
   (* what the keywords of the result are *)
   assert (K : forall k w, In (k, w) (kwvals ct res) -> exists t, In (k, t) kws /\ val_eqb w (eval ct t) = true).
-  { intros k w Hin. apply in_kwvals in Hin. destruct Hin as [r [Hin ->]].
+  { intros k w Hin. apply (in_kwvals' ct) in Hin. destruct Hin as [r [Hin ->]].
     destruct (cplace_nofix_shape asg F c _ fs _ 0 HF _ Hin) as [e [He Hx]]. destruct e as [t|[k0 t]]; cbn [cassign_el] in Hx.
     - unfold cassign_pos in Hx. rewrite HF in Hx. destruct Hx as [E|[]]. discriminate.
     - apply in_elements_kw in He. unfold cassign_kw in Hx. destruct (alookup k0 fs) as [v|] eqn:El.
@@ -301,7 +302,7 @@ Proof.
       destruct He as [->|He]; [left; exact Hx|right; apply IH; exact He]. }
     cbn [cassign_el] in Hin. unfold cassign_kw in Hin.
     assert (Hkeep : forall r, In (Some k, r) res -> False).
-    { intros r Hr. apply Hni. apply in_map_iff. exists (k, eval_r ct r). split; [reflexivity|]. apply in_kwvals. exists r. split; [exact Hr|reflexivity]. }
+    { intros r Hr. apply Hni. apply in_map_iff. exists (k, eval_r ct r). split; [reflexivity|]. apply (in_kwvals' ct). exists r. split; [exact Hr|reflexivity]. }
     destruct (alookup k fs) as [v|] eqn:El; [|rewrite HF in Hin; exfalso; apply (Hkeep (QKeep t)); apply Hin; left; reflexivity].
     destruct (is_default ct c k v) eqn:Ed; [|exfalso; apply (Hkeep (asg t v)); apply Hin; left; reflexivity].
     destruct (is_unm t); [exfalso; apply (Hkeep (QKeep t)); apply Hin; left; reflexivity|].
